@@ -51,7 +51,7 @@ THEOREMS = [
     "AiuVerif.C15.pairing_spec",
     "AiuVerif.C15.skipped_counted",
     "AiuVerif.C15.rank_is_first_pid",
-    "AiuVerif.C15.ingest_loss_free_sorted",
+    "AiuVerif.C15.annotate_keeps",
 ]
 RULE = ("file sets for MultifileIngest: (G1) exhaustive k<=2 (thorough: k<=3) files x all slice streams of length <=2 "
         "with ts in {absent,0,1,2}; (G2) exhaustive single files of <=3 raw events over a 13-letter alphabet of "
